@@ -1650,6 +1650,39 @@ fn run_dig(c: &Case, buf: &mut String) {
                 };
                 out(buf, &format!("LOAD {i} {verdict} byname={verdict_name}"));
             }
+            // `test_cases[i].name` is a public field too: after a rename, selection by name goes by the names there are NOW
+            if !file.test_cases.is_empty() {
+                let verdict = catch_unwind(AssertUnwindSafe(|| {
+                    let last = file.test_cases.len() - 1;
+                    let mut f2 = file.clone();
+                    let old = f2.test_cases[last].name.clone();
+                    f2.test_cases[last].name = "\u{2}renamed\u{2}".to_string();
+                    let sig = |r: Result<TestCase, digital_test_runner::errors::LoadTestError>| match r {
+                        Ok(t) => format!("{t:?}"),
+                        Err(e) => format!("ERR {e:?}"),
+                    };
+                    let a = sig(f2.load_test_by_name("\u{2}renamed\u{2}"));
+                    let b = sig(f2.load_test(last));
+                    if a != b {
+                        return format!("the renamed test {last} is not found under its new name: [{:.60}] vs [{:.60}]", a, b);
+                    }
+                    let c_ = sig(f2.load_test_by_name(&old));
+                    let want = match f2.test_cases.iter().position(|x| x.name == old) {
+                        Some(k) => sig(f2.load_test(k)),
+                        None => "ERR TestNotFound".to_string(),
+                    };
+                    if !(c_ == want || (want == "ERR TestNotFound" && c_.starts_with("ERR TestNotFound("))) {
+                        return format!("after renaming test {last}, its old name selects [{:.60}] instead of [{:.60}]", c_, want);
+                    }
+                    String::new()
+                }))
+                .unwrap_or_else(|_| "PANIC".to_string());
+                if verdict.is_empty() {
+                    out(buf, "LOADNAME same");
+                } else {
+                    out(buf, &format!("LOADNAME DIFFERENT {verdict}"));
+                }
+            }
             let oob = catch_unwind(AssertUnwindSafe(|| file.load_test(file.test_cases.len()).is_err()));
             out(buf, &format!("LOADOOB {}", match oob { Ok(true) => "err", Ok(false) => "OK?", Err(_) => "PANIC" }));
             let unk = catch_unwind(AssertUnwindSafe(|| file.load_test_by_name("\u{1}no such test\u{1}").is_err()));
